@@ -71,6 +71,11 @@ def check(tokens):
             else:
                 stack.append(tok)
         elif cls == LEAF:
+            if name == "BLANK" and parent is not None and parent.token_name == "html-block":
+                # project convention (asserted by the repository's own tests): a blank line
+                # inside an HTML block is a BLANK token between its text tokens
+                i += 1
+                continue
             if parent is not None and pcls != CONTAINER:
                 return f"leaf {name} inside {parent.token_name}"
             if name not in _SOLO_LEAF:
